@@ -144,4 +144,34 @@ CHECKS = {
              "checks": {"quick": 60, "thorough": 600}, "shards": {"quick": 4, "thorough": 12}},
         ],
     },
+    "C17": {
+        "level_text": "Generated wire encodings of the RPC root types through the real RepairUTF8Codec against the standard codec (differential) and against a reference repair built from the legacy schema (sanitised copy); separate part for the history-blob repair path of the interceptor. Exploration over random messages, injected invalid byte runs, chain depths around the supported bound, truncations/bit flips/random bytes.",
+        "technique": "property-based differential testing (rapid): standard codec as oracle on valid data, sanitised-copy reference on invalid data; error-or-reference relation on garbage",
+        "level": "exploration",
+        "assumptions": [
+            "a message 'from an older server' = an encoding that contains only fields of the legacy (v1.22, gogo) schema; it is produced by reading a generated message in the legacy schema and re-marshalling it",
+            "the statement does not fix whether an invalid run becomes one or several U+FFFD: comparison collapses runs of U+FFFD",
+            "native go test -fuzz is not part of the registered commands (cannot be seeded); the rapid generators inject the hostile constants instead",
+        ],
+        "parts": [
+            {"name": "codec", "pkg": "proto/compat", "run": "^TestVF_C17_Codec$",
+             "checks": {"quick": 6000, "thorough": 60000}, "shards": {"quick": 2, "thorough": 12}},
+            {"name": "blob", "pkg": "interceptor", "run": "^TestVF_C17_Blob$",
+             "checks": {"quick": 4000, "thorough": 40000}, "shards": {"quick": 1, "thorough": 4}},
+        ],
+    },
+    "C18": {
+        "level_text": "Every (convertible RPC root type, structural path to a Failure) pair, enumerated by reflection over the legacy Go structs, x chain depths {1,2,5,10}, plus all paths of a root at once and random path subsets/depths/invalid runs; the codec must succeed, leave only valid UTF-8 and equal the reference repair. The enumeration is complete for the stated recursion bound.",
+        "technique": "reflection-driven exhaustive path enumeration + random combinations (rapid), reference-repair oracle",
+        "level": "exploration",
+        "exhaustive_claim": True,
+        "assumptions": [
+            "root types are taken from the service descriptors, not from the conversion tables' text; recursion bound: each legacy struct type at most 2 (quick) / 3 (thorough) times per path",
+        ],
+        "parts": [
+            {"name": "paths", "pkg": "proto/compat", "run": "^TestVF_C18_Paths$", "rapid": False},
+            {"name": "random", "pkg": "proto/compat", "run": "^TestVF_C18_Random$",
+             "checks": {"quick": 3000, "thorough": 30000}, "shards": {"quick": 1, "thorough": 8}},
+        ],
+    },
 }
